@@ -1129,7 +1129,7 @@ KNOWN_WITNESSES = [
     {"cls": "docutils:note", "first": "", "content": ":class: x\nbody\n\n", "line": 0},
     {"cls": "docutils:note", "first": "", "content": "---\nclass: x\n---\nbody\n\n", "line": 0},
     {"cls": "docutils:note", "first": "", "content": "---\nclass: x\n---x\nbody", "line": 0},
-    # open finding exception:option-converter
+    # former finding exception:option-converter (fixed 155ac3f)
     {"cls": "docutils:figure", "first": "a.png", "content": ":figwidth:\n\nbody", "line": 0},
     {"cls": "docutils:csv-table", "first": "", "content": ":quote:\n\na,b", "line": 0},
 ]
@@ -1149,13 +1149,43 @@ def replay(ctx, data):
     return 0 if ok else 1
 
 
-LEVEL_TEXT = ("Proof (Coq, no bounds): for every directive signature, first line and content, the body returned by the model of "
-              "parse_directive_text is skipn body_offset (splitlines content), body_offset = lines of the option block (delimiters "
-              "included) + 1 if the next line is blank (C08_body_is_suffix, C08_offset_is_index); a class without option_spec "
-              "never consults the tokenizer (C08_no_opts_no_leak); MarkupError iff the argument count is outside the declaration "
-              "(C08_arguments); kept options = known keys whose converter succeeds, block over additional_options, each dropped "
-              "key in exactly one warning (C08_option_validation); colon and dash styles agree on single-line pairs relative to "
-              "the tokenizer oracle (C08_styles_interchangeable). Tie: differential correspondence with the extracted model on "
-              "every run (exhaustive vocabulary contents for one class per signature, random for all registered classes).")
-LEVEL_NOTE = ("Trusted: Coq kernel; the hand transcription in coq/Dir (checked by correspondence); options_to_items, option "
-              "converters, yaml.safe_load, re as oracles (Section variables / tables captured from the run).")
+LEVEL_TEXT = ("Proof (Coq 8.16, 16 theorems, all closed under the global context), no bounds: universally quantified over the directive "
+              "signature (has option_spec, known keys, flags, converters, required / optional arguments, final_argument_whitespace, "
+              "has_content), the first line, the content, and every behaviour of the option tokenizer / YAML loader. IN FULL: the body "
+              "returned by parse_directive_text is skipn body_offset (split_lines content) - nothing lost, nothing leaked - and "
+              "body_offset = lines of the option block (delimiters included) + 1 if exactly one following blank line is stripped "
+              "(C08_body_is_suffix, C08_offset_is_index); when the first line is body text the body is first line :: that suffix "
+              "(C08_merged_first_line); a class without option_spec never consults the tokenizer and keeps ':key:' lines as body "
+              "(C08_no_opts_no_leak); MarkupError iff the number of arguments is outside the declaration, the last argument absorbs "
+              "the rest iff final_argument_whitespace, arguments are exactly the whitespace-separated pieces of the first line "
+              "(C08_arguments, C08_arguments_in_text); kept options = known keys whose own converter succeeds, converted by it, "
+              "each dropped key in exactly one warning, unknown and invalid distinguished (C08_option_validation); the option block "
+              "wins over additional_options (C08_block_priority). "
+              "TIED TO REGENERATED CODE: split_lines, parse_directive_arguments, _parse_directive_options and parse_directive_text are "
+              "regenerated statement by statement from parsers/directives.py on every run (gen/c08_dirsrc.py -> coq/Gen/DirSrc.v) and "
+              "proved equal to the model (C08_src_refines_model); C08_body_is_suffix_src, C08_offset_is_index_src, C08_arguments_src, "
+              "C08_block_priority_src restate the main clauses on the regenerated code - a source edit breaks gen or a refinement "
+              "proof. "
+              "PARTIAL / RELATIVE TO AN ORACLE: C08_styles_interchangeable (colon and dash style give the same options for "
+              "single-line pairs) is relative to the tokenizer oracle and assumes a final newline does not change the items of such "
+              "a block; C08_styles_interchangeable_c07_partial discharges that for the C07 tokenizer model on comment-free blocks of "
+              "plain scalars. C08_rejoin_refuted: the splitter as it was before fix 601d16e does not satisfy C08_body_is_suffix. "
+              "Tie checked on every run: (a) the regeneration above; (b) differential correspondence with the extracted model - "
+              "exhaustive contents over a 9-line vocabulary (<= 5 lines quick / <= 6 thorough) x first lines x trailing-newline "
+              "variants for one class per distinct signature, random contents for ALL 151 registered docutils + Sphinx directive "
+              "classes, tokenizer / converter / YAML results captured per case and handed to the model as tables; (c) direct oracle - "
+              "the clauses recomputed independently from the content lines; colon vs dash style on the real tokenizer; document "
+              "level: sequences of related directive classes (Include / admonition / image / code / table families incl. registered "
+              "subclasses) rendered in one document in every order, each parse inside run_directive equal to the parse of the same "
+              "directive alone and to parse_directive_text on the class registered under its name.")
+LEVEL_NOTE = ("Trusted base: Coq kernel (no axioms); gen/c08_dirsrc.py (own AST walker, fail-closed) with its domain mapping "
+              "coq/Dir/PyRuntime.v + PyLines.v (_RE_NEWLINE.split, lines[-1], split(None, k), `x or \"\"`, yaml `or {}` / isinstance "
+              "dict, re.search('^-{3,}', MULTILINE) = first line starting with '---', str methods, textwrap.dedent as modelled, "
+              "ParseWarnings -> constructor by type argument and interpolated names); gen/c08_unicode.py (whitespace class of the "
+              "running interpreter, separators read from _RE_NEWLINE); oracles as Section variables / captured tables: "
+              "options_to_items (C07's subject; instantiated with the C07 model in coq/Dir/DirTokenizer.v), the directives' own option "
+              "converters, yaml.safe_load; dict insertion order. run_directive itself is not modelled: its choice of class per call is "
+              "covered by the document-level search only. Repaired in this project: 601d16e (body re-joined and re-split: trailing "
+              "blank line shifted body_offset; '---x' closed a dash block); concurrent fixes 22b9d98, 155ac3f (any exception from "
+              "YAML / a converter is a warning) and 620bbcf (split_lines at CR / LF only) were followed in model and translator. "
+              "No open finding.")
